@@ -110,6 +110,10 @@ def h_fault(ex, dll, L, kind, fault, windows=(1, 1), nmax=None, timer=None):
     t_last = max([f['t'] for f in normal], key=lambda t: t.c) if normal else t0
     for f, reason in aborts:
         ex.claim('abort.reason_not_busy', reason != 1, dict(info, reason=reason, src=f['src']))
+        fld = ids.id_fields(f['id'])
+        own, peer = (A, B) if f['src'] == 'A' else (B, A)
+        # the abort tells the PEER: sent from the stack's own address to the other side of the session
+        ex.claim('abort.addressed_to_the_peer', sym_and(fld['sa'] == own, fld['ps'] == peer), dict(info, src=f['src'], id=f['id']))
         # an abort is sent by a side that waits for a CTS or for data: at most 1.25 s (the 3 s of J1939-22 apply to
         # the wait for the end-of-message acknowledge, which ends silently)
         limit = t_last + Fraction(5, 4) + SLACK
